@@ -8,3 +8,6 @@ package eventlogger
 // verifPoint marks a protocol step of graph.process/doProcess. It only does
 // something when building with the "verif" build tag (see verif_on.go).
 func verifPoint(string, PipelineID, NodeID) {}
+
+// verifStatusNode only does something when building with the "verif" build tag.
+func verifStatusNode(Status) NodeID { return "" }
